@@ -385,6 +385,12 @@ func c11Program(r *rt.Run, src string, storeFacts []string) {
 				for j, b := range decl.Bounds[0].Bounds {
 					c, _ := a.Args[j].(ast.Constant)
 					if h, err := symbols.NewBoundHandle(b); err == nil && !h.HasType(c) {
+						if member, ok := taggedUnionVariantMember(b, c); ok && member {
+							// the value is a member of one of the variants: the run-time check itself is wrong,
+							// which no recorded inconsistency of the conformance judgement explains
+							sufs["-although-member-of-a-variant-of-the-tagged-union"] = true
+							continue
+						}
 						sufs[explain(b, c)] = true
 					}
 				}
